@@ -106,7 +106,14 @@ Proof.
   bsplit. apply andb_true_iff. split; auto.
   destruct s as [ht idx v sc co d], s' as [ht' idx' v' sc' co' d']. unfold sig4_pair_run, sig4_pair_ok in *.
   unfold wf_sig4 in *. bsplit.
-  rewrite <- sighash4_eqb_bridge; auto; repeat split; auto with wf; unfold u32; lia.
+  match goal with H : Bool.eqb _ _ = true |- _ => apply eqb_prop in H; rename H into EQ end.
+  assert (U256 : forall x, (x <? 256) = true -> u32 x).
+  { intros x Hx. apply N.ltb_lt in Hx. unfold u32. eapply N.lt_trans; [exact Hx | reflexivity]. }
+  assert (I1 : wf_input4 (Transp4 ht idx v co)).
+  { split; [apply U256; assumption | split; [apply u63b_u63 | apply shortb_short]; assumption]. }
+  assert (I2 : wf_input4 (Transp4 ht' idx' v' co')).
+  { split; [apply U256; assumption | split; [apply u63b_u63 | apply shortb_short]; assumption]. }
+  rewrite <- (sighash4_eqb_bridge t t' _ _ W W' I1 I2). apply eqb_true_iff. exact EQ.
 Qed.
 
 Theorem bridge_v4_mut f t t' o o' :
